@@ -315,6 +315,8 @@ pub fn explore_sys(spec: &Spec, make: Factory, journal: Journal) -> Result<Outco
                 } else {
                     spec.final_layer.clone()
                 };
+                // C13: what two plain calls produce from this state (computed on demand, once)
+                let mut plain_cont: Option<Vec<(String, Vec<Vec<u64>>)>> = None;
                 for d in devs {
                     let mut side = make()?;
                     if !side.replay(&h) {
@@ -329,6 +331,50 @@ pub fn explore_sys(spec: &Spec, make: Factory, journal: Journal) -> Result<Outco
                     record(&mut out, viols, &h, d);
                     if side.dead() {
                         out.terminal += 1;
+                        continue;
+                    }
+                    if spec.props.c13 && matches!(d, Op::Bad(_)) && !obs.res.is_ok() {
+                        // a following valid call behaves as if the failed call never happened
+                        let cont = |s: &mut Box<dyn Sys>| -> Vec<(String, Vec<Vec<u64>>)> {
+                            let mut t = Vec::new();
+                            for _ in 0..2 {
+                                let (o, _) = s.step(Op::P, false);
+                                let r = match &o.res {
+                                    Res::Panic(m) => format!("PANIC({})", crate::run::classify(m)),
+                                    other => other.text(),
+                                };
+                                t.push((r, o.out.iter().map(|c| c.iter().map(|x| x.to_bits()).collect()).collect()));
+                                if s.dead() {
+                                    break;
+                                }
+                            }
+                            t
+                        };
+                        if plain_cont.is_none() {
+                            let mut twin = make()?;
+                            if twin.replay(&h) {
+                                plain_cont = Some(cont(&mut twin));
+                                out.transitions += 2;
+                            }
+                        }
+                        let got = cont(&mut side);
+                        out.transitions += 2;
+                        if let Some(want) = &plain_cont {
+                            if &got != want {
+                                let step = got.iter().zip(want.iter()).position(|(a, b)| a != b).unwrap_or(0);
+                                let what = if got.get(step).map(|x| &x.0) != want.get(step).map(|x| &x.0) { "result" } else { "output samples" };
+                                record(
+                                    &mut out,
+                                    vec![Viol {
+                                        prop: "C13",
+                                        sig: "rejected-call-changes-later-behaviour".into(),
+                                        detail: format!("after the rejected call {} the next valid calls differ ({} of call {}) from a twin that never saw it", d.text(), what, step),
+                                    }],
+                                    &h,
+                                    d,
+                                );
+                            }
+                        }
                         continue;
                     }
                     let k2 = fp_ctrl(&side.state());
